@@ -175,11 +175,14 @@ def job_moment(WG, job, seed):
     scale = [0.01, 1.0, 30.0, 1e3][job["scale"]]         # momentum scale T0
     gk = job.get("grid", "Grid")
     bM, bN = job.get("bM", "Cardinal"), job.get("bN", "Cardinal")
-    ev = {"e": "moment", "N": N, "scale": job["scale"], "mass": job["mass"], "grid": gk, "bM": bM, "bN": bN}
+    ev = {"e": "moment", "N": N, "scale": job["scale"], "mass": job["mass"], "grid": gk, "bM": bM, "bN": bN, "hist": job.get("hist", "fresh")}
     rng = np.random.default_rng(seed + 7 * N + job["scale"] + 31 * job["mass"])
     # same momentum map on both grid classes (p_z = 2 T0 atanh(rho_z), p_par = -T0 log((1-rho_par)/2)); Grid3Scales has its own
     # implementation of the Jacobians
-    grid = WG.Grid(M, N, 1.0, scale) if gk == "Grid" else WG.Grid3Scales(M, N, 3.0, 2.0, 1.0, scale, 0.75, 0.1)
+    s0 = scale if job.get("hist", "fresh") == "fresh" else 1.3 * scale
+    grid = WG.Grid(M, N, 1.0, s0) if gk == "Grid" else WG.Grid3Scales(M, N, 3.0, 2.0, 1.0, s0, 0.75, 0.1)
+    if s0 != scale:
+        grid.changeMomentumFalloffScale(scale)       # the public way to follow an updated plasma temperature
     parts = particles(WG, 2)
     bs = WG.BoltzmannSolver(grid, bM, bN)
     bs.updateParticleList(parts)
